@@ -331,6 +331,7 @@ class Deployment:
         w = self.world
         kind = op["op"]
         rec = {"op": op, "id": op.get("id"), "draw_lo": len(self.record.draws), "maps": []}
+        self.current_op = op.get("id")  # what the seam observers attribute their observations to
         self.log.add("op-begin", kind, {k: v for k, v in op.items() if k != "id"})
         name = op.get("h", "h0")
         try:
